@@ -26,7 +26,8 @@ func runC04(c *Ctx) {
 	c.Rule("A8-relations: duplicated tables are equal (bitio/lossy range tables, dsp/lossy zigzag and bands, writer/reader normalisation tables), the reverse zigzag is the inverse permutation, KAcTable2[i] = max(8, KAcTable[i]*101581>>16), kVP8NewRange[r] = ((r+1) << kVP8Log2Range[r]) - 1 with the minimal normalising shift")
 	c.Rule("K1-predictors: every function stored in dsp.PredLuma4/PredLuma16/PredChroma8, and every mode of the direct dispatchers, is reduced by the S8 kernel evaluator to one normal form per output sample (linear forms over the neighbouring samples, shifts with the multiples of 2^k taken out, clamps as piecewise forms); the table of normal forms equals that of the independent RFC 6386 decoder (golang.org/x/image/vp8, reduced by the same evaluator into ref/ximage_kernels.json); samples outside the block must not be written")
 	c.Rule("K2-transforms: dsp.transformOne and transformWHT have the normal forms of the reference inverse DCT and inverse WHT; transformDC and transformAC3 equal transformOne with the other coefficients zero")
-	c.NotCovered("the loop filter, the upsampler, YUV->RGB conversion and every assembly kernel (amd64/arm64 .s files and the functions that dispatch to them); coefficient parsing and dequantisation arithmetic")
+	c.Rule("K5-inner-filter-gate: the per-macroblock flag that enables inner-edge loop filtering (the bool field of the filter-info record) depends on the macroblock's non-zero-coefficient masks or on the residual parser's result, not only on the bitstream skip flag (RFC 6386 15.1)")
+	c.NotCovered("the loop filter arithmetic, the upsampler, YUV->RGB conversion and every assembly kernel (amd64/arm64 .s files and the functions that dispatch to them); coefficient parsing and dequantisation arithmetic")
 	c.NotCovered("the header bit grammar (segment/filter/quantiser/partition syntax) - see DESIGN.md: the grammar extractor was not built")
 	ref := loadRefOrFail(c)
 	if ref == nil {
@@ -45,6 +46,7 @@ func runC04(c *Ctx) {
 		}
 		kernelPredictors(c, p, kref)
 		kernelTransforms(c, p, kref)
+		kernelInnerFilterGate(c, p)
 		repo := repoTables(p, "internal/lossy", "internal/bitio", "internal/dsp")
 		for k := range repo {
 			_ = k
